@@ -4,7 +4,7 @@
    connect outcomes, task-group cancellation and caller cancellation; every theorem quantifies over all tr. *)
 From Coq Require Import ZArith List Bool Arith Lia Permutation.
 Import ListNotations.
-From EN Require Import Gen.ParamsC19 Conc.ConnRace Proofs.C19_reorder Proofs.C19_proofs.
+From EN Require Import Gen.ParamsC19 Conc.ConnRace Conc.ClientConn Proofs.C19_reorder Proofs.C19_proofs Proofs.C19_client.
 
 (* at every reachable state the open sockets are exactly the sockets of the attempts suspended in connect, plus the
    winner as long as the race has not ended with an exception; no socket is counted twice *)
@@ -99,6 +99,56 @@ Theorem first_attempt_ipv6 : forall l : list acfg, (exists a, In a l /\ a_fam a 
 Proof. exact reorder_first_ipv6. Qed.
 Print Assumptions first_attempt_ipv6.
 
+(* ---- client level (Conc/ClientConn.v): AsyncTCPNetworkClient's connector/scope logic around the race.
+   [kexec c (kinit c) tr = Some s]: any sequence of wait_connected() calls, race steps, aclose() and task.cancel(). *)
+
+(* when no wait_connected() call is in progress, the only socket of the race that can still be open is the one owned
+   by the endpoint of a connected client; in particular a failed or cancelled connect leaks nothing *)
+Theorem client_quiescent_sockets : forall c tr s,
+  NoDup (map a_id (c_addrs c)) -> c_addrs c <> [] -> kexec c (kinit c) tr = Some s ->
+  (k_w s = WIdle \/ k_w s = WNew) ->
+  match k_endpoint s with
+  | Some id => kopen s = (if k_sock_closed s then [] else [id])
+  | None => kopen s = []
+  end.
+Proof.
+  intros c tr s Hd Hne H Hw.
+  apply (quiescent_open c s (kexec_inv c Hd Hne tr (kinit c) s (kinit_inv c) H)).
+  destruct Hw as [-> | ->]; simpl; tauto.
+Qed.
+Print Assumptions client_quiescent_sockets.
+
+(* after aclose(), at quiescence, no socket created by the race is open -- whenever aclose() ran: before the connect,
+   while the race or the wrapping of its socket was in flight, or on a connected client *)
+Theorem client_close_leaves_no_socket : forall c tr s,
+  NoDup (map a_id (c_addrs c)) -> c_addrs c <> [] -> kexec c (kinit c) tr = Some s ->
+  (k_w s = WIdle \/ k_w s = WNew) -> k_aclosed s = true -> kopen s = [].
+Proof.
+  intros c tr s Hd Hne H Hw Ha.
+  apply (closed_client_no_socket c s (kexec_inv c Hd Hne tr (kinit c) s (kinit_inv c) H)); [|exact Ha].
+  destruct Hw as [-> | ->]; simpl; tauto.
+Qed.
+Print Assumptions client_close_leaves_no_socket.
+
+(* no wait_connected() call that ends after aclose() has run reports success *)
+Theorem closed_client_never_connects : forall c tr s o,
+  NoDup (map a_id (c_addrs c)) -> c_addrs c <> [] -> kexec c (kinit c) tr = Some s ->
+  In (o, true) (k_outs s) -> o <> WOk.
+Proof.
+  intros c tr s o Hd Hne H. apply (ki_ok c s (kexec_inv c Hd Hne tr (kinit c) s (kinit_inv c) H)).
+Qed.
+Print Assumptions closed_client_never_connects.
+
+(* and a wait_connected() started on a closed client reports ClientClosedError at its first step, opening nothing *)
+Theorem closed_client_reports_closed : forall c tr s s',
+  NoDup (map a_id (c_addrs c)) -> c_addrs c <> [] -> kexec c (kinit c) tr = Some s ->
+  k_aclosed s = true -> k_w s = WNew -> k_task_cancel s = false -> kstep c s KBegin = Some s' ->
+  k_w s' = WIdle /\ k_outs s' = k_outs s ++ [(WClosed, true)] /\ kopen s' = kopen s.
+Proof.
+  intros c tr s s' Hd Hne H. apply (closed_then_wait c s s' (kexec_inv c Hd Hne tr (kinit c) s (kinit_inv c) H)).
+Qed.
+Print Assumptions closed_client_reports_closed.
+
 (* non-vacuity: a double success ends with exactly the winner's socket open; an all-failed race reports its errors *)
 Example ex_double_success :
   let c := {| c_addrs := [ {| a_id := 0; a_fam := AF_INET6; a_create := true; a_conn := CkSuspend |};
@@ -122,4 +172,14 @@ Example ex_cancel_after_win :
   option_map (fun s => (r_open s, r_result s))
     (exec c (init c) [LHostStart; LChildStart 0; LCancelCaller; LConnOk 0; LHostCancel; LHostFinish false])
   = Some ([], Some ResCancelled).
+Proof. vm_compute. reflexivity. Qed.
+Example ex_close_in_flight :
+  let c := {| c_addrs := [ {| a_id := 0; a_fam := AF_INET6; a_create := true; a_conn := CkSuspend |};
+                           {| a_id := 1; a_fam := AF_INET; a_create := true; a_conn := CkSuspend |} ];
+              c_locals := None; c_delay := true |} in
+  option_map (fun s => (kopen s, k_outs s, k_connector s))
+    (kexec c (kinit c) [KWait; KBegin; KRace LHostStart; KRace (LChildStart 0); KRace (LHostNext true);
+                        KRace (LChildStart 1); KAclose; KRace LHostCancel; KRace (LConnCancel 0); KRace (LConnCancel 1);
+                        KRace (LHostFinish false); KRaceDone true])
+  = Some ([], [(WClosed, true)], false).
 Proof. vm_compute. reflexivity. Qed.
